@@ -25,6 +25,20 @@ CLAIMS = {
         "6 C07"),
 }
 
+CLAIMS["C11"] = (
+    "Panic-freedom, bounded pre-allocation and loop progress of the real decoders, decided by Kani on the "
+    "unmodified function bodies compiled in place: every byte string of length 0..=N (N per decoder, symbolic "
+    "length so every truncation offset) is fed to MerkleProof::read, Segment::read/SegmentProof::read and the "
+    "fixed-size wire types; each index, unwrap, slice and with_capacity is a proof obligation (with_capacity is "
+    "stubbed by a checker asserting request <= 100_000 + 64*input_len bytes). The stateless validators on decoded "
+    "values (Segment::validate and what it calls) are covered by a BOUNDED stand-in (mmr sizes and identifier "
+    "ranges enumerated, stated in the evidence) and are never counted as proved.",
+    "Trusted: KReader models BinReader over a slice; alloc::fmt::format stubbed; Kani checks arithmetic with debug "
+    "semantics and stops at a wrap (wrap sites are listed in the evidence, behaviour beyond them is unexplored); "
+    "prunable segments with a CRoaring bitmap, zip handling, JSON bodies, Codec timing are outside.",
+    "Kani full-domain harnesses on the real crates (complete for fixed-length decoders) + bounded harnesses for validators",
+    "6 C11")
+
 NOT_APPLICABLE = {
     "C09": "quantifies over crash points and restart recovery through LMDB + files; a function contract speaks about one call that returns, and neither Kani nor Verus can execute LMDB/std::fs (DESIGN 7)",
     "C17": "quantifies over thread schedules; Kani has no thread support and Verus needs its own permission-typed primitives that grin's RwLock/LMDB code does not use (DESIGN 7)",
